@@ -48,9 +48,13 @@ func (l *roundRobinLoadBalancer) OnEvent(event Event) {
 
 	switch evt := event.(type) {
 	case *BootstrapEvent:
-		l.hosts.Store(evt.Hosts)
+		hosts := make([]*Host, 0, len(evt.Hosts))
+		for _, host := range evt.Hosts {
+			hosts = appendIfAbsent(hosts, host)
+		}
+		l.hosts.Store(hosts)
 	case *AddEvent:
-		l.hosts.Store(append(l.copy(), evt.Host))
+		l.hosts.Store(appendIfAbsent(l.copy(), evt.Host))
 	case *RemoveEvent:
 		cpy := l.copy()
 		for i, h := range cpy {
@@ -60,6 +64,17 @@ func (l *roundRobinLoadBalancer) OnEvent(event Event) {
 			}
 		}
 	}
+}
+
+// appendIfAbsent adds a host to the list unless the list already has an entry for it. A host can be announced more
+// than once (e.g. when the system tables list an endpoint twice); a query plan should still only visit it once.
+func appendIfAbsent(hosts []*Host, host *Host) []*Host {
+	for _, h := range hosts {
+		if h.Key() == host.Key() {
+			return hosts
+		}
+	}
+	return append(hosts, host)
 }
 
 func (l *roundRobinLoadBalancer) copy() []*Host {
